@@ -115,6 +115,7 @@ requests:
         mapping: {token: $.token}
       - type: assert/response
         body: ["fine"]
+        headers: {content-type: json, X-Request-ID: rid, ETag: v1}
   - name: b
     method: GET
     uri: '/b?t={{.request.a.postprocessor.token}}'
@@ -125,6 +126,7 @@ requests:
     postprocessors:
       - type: assert/response
         size: {val: 3, op: ">"}
+        headers: {x-request-id: "rid-"}
   - name: d
     method: POST
     uri: /d
